@@ -35,15 +35,15 @@ Inductive rrepres :=
 | RepOut.
 
 Section Ref.
-  Variable c : cfg.
-  Let d := cData c.
+  Variable c : rdata.
+  Let d := rData c.
 
   Definition rune_at (o : nat) : rune * nat := decode (skipn o d).
 
   (* arriving at offset o: an invalid byte is reported unless AllowInvalidUTF8 *)
   Definition land (R : option rule) (o : nat) (m : rmu) : rmu :=
     let '(r, w) := rune_at o in
-    if Z.eqb r RuneError && Nat.eqb w 1 && negb (o_allowinvalid (cO c))
+    if Z.eqb r RuneError && Nat.eqb w 1 && negb (o_allowinvalid (rO c))
     then log (RErr msg_invalid_encoding (pos_of d o) R) m else m.
 
   Definition slice (a b : nat) : bytes := firstn (b - a) (skipn a d).
@@ -69,7 +69,7 @@ Section Ref.
     match rs with
     | [] => (Some (o, m), m)
     | w :: rs' =>
-        match step_rune R o m (fun r => Z.eqb (if ic then to_lower (cU c) r else r) w) with
+        match step_rune R o m (fun r => Z.eqb (if ic then to_lower (rU c) r else r) w) with
         | Some (o', m') => lit_match R ic rs' o' m'
         | None => (None, m)
         end
@@ -79,7 +79,7 @@ Section Ref.
     match l with [] => sc | _ => aset l v sc end.
 
   Definition block_ctx_ref (id : cid) (text : bytes) (pos : position) (sc : scope) (g : rsig) (m : rmu) : ctx :=
-    mkCtx text pos (map (fun l => (l, arg_lookup l sc)) (ce_params (cE c) id)) (g_st g) (u_gs m).
+    mkCtx text pos (map (fun l => (l, arg_lookup l sc)) (ce_params (rE c) id)) (g_st g) (u_gs m).
 
   Definition with_gs (gs' : gstore) (m : rmu) : rmu := mkMu gs' (u_log m) (u_cnt m).
 
@@ -161,7 +161,7 @@ Section Ref.
           term_result R inv want sc g m res mf
       | ECls _ cv chars ranges classes ic cinv _ =>
           term_result R inv cv sc g m
-            (step_rune R (g_off g) m (class_decide (cU c) chars ranges classes ic cinv)) m
+            (step_rune R (g_off g) m (class_decide (rU c) chars ranges classes ic cinv)) m
       | EAny _ => term_result R inv b_dot sc g m (step_rune R (g_off g) m (fun _ => true)) m
       | ESeq _ es => rseq es [] sc g m
       | EAlt _ es => ralt es sc g m
@@ -204,28 +204,28 @@ Section Ref.
           match ev H R inv e' sc g m with
           | ROk _ g' sc' m' =>
               let x := block_ctx_ref id (slice (g_off g) (g_off g')) here sc' g' m' in
-              match run_block KAct id (ce_act (cE c)) x m' with
+              match run_block KAct id (ce_act (rE c)) x m' with
               | inl (r, err, _, m'') => ROk r g' sc' (log_err err here R m'')     (* state changes discarded *)
               | inr (pv, m'') => RPanic pv m'' (pos_of d (g_off g')) R
               end
           | other => other
           end
       | EAndC _ id =>
-          match run_block KAnd id (ce_pred (cE c)) (block_ctx_ref id [] here sc g m) m with
+          match run_block KAnd id (ce_pred (rE c)) (block_ctx_ref id [] here sc g m) m with
           | inl (ok, err, _, m') =>
               let m'' := log_err err here R m' in
               if ok then ROk VNil g sc m'' else RFail m''
           | inr (pv, m') => RPanic pv m' here R
           end
       | ENotC _ id =>
-          match run_block KNot id (ce_pred (cE c)) (block_ctx_ref id [] here sc g m) m with
+          match run_block KNot id (ce_pred (rE c)) (block_ctx_ref id [] here sc g m) m with
           | inl (ok, err, _, m') =>
               let m'' := log_err err here R m' in
               if ok then RFail m'' else ROk VNil g sc m''
           | inr (pv, m') => RPanic pv m' here R
           end
       | EStC _ id =>
-          match run_block KState id (ce_state (cE c)) (block_ctx_ref id [] here sc g m) m with
+          match run_block KState id (ce_state (rE c)) (block_ctx_ref id [] here sc g m) m with
           | inl (_, err, st', m') => ROk VNil (mkSig (g_off g) st') sc (log_err err here R m')   (* state changes kept *)
           | inr (pv, m') => RPanic pv m' here R
           end
@@ -233,7 +233,7 @@ Section Ref.
           match nm with
           | [] => RPanic (pos_string pos0 ++ msg_missing_name) m here R
           | _ =>
-              match find_rule nm (cG c) with
+              match find_rule nm (rG c) with
               | None => RFail (log (RErr (msg_undefined_rule ++ nm) here R) m)
               | Some r =>
                   match ev H (Some r) inv (r_expr r) [] g m with
@@ -248,7 +248,7 @@ Section Ref.
   End Eval.
 
   Definition over_budget (n : N) : bool :=
-    negb (N.eqb (o_maxexpr (cO c)) 0) && N.ltb (o_maxexpr (cO c)) n.
+    negb (N.eqb (o_maxexpr (rO c)) 0) && N.ltb (o_maxexpr (rO c)) n.
 
   Fixpoint reval (fuel : nat) (H : handlers) (R : option rule) (inv : bool) (e : expr)
            (sc : scope) (g : rsig) (m : rmu) : rres :=
